@@ -7,18 +7,29 @@
 //! still names the sender as its owner makes the receiver hold pointers into the sender's heap.
 //!
 //! Source and destination are real hand-built threads (as in the `can_share` harnesses) that are
-//! siblings under one root; the cell holds an arbitrary `Int`.  Stub: `Gc::get_type_info`
-//! (TypeInfo interning cache).
+//! siblings under one root; the cell holds an arbitrary `Int`.  Stubs: `Gc::get_type_info`
+//! (TypeInfo interning cache) and `Cloner::deep_clone` (the nested value clone, see below).
 #![allow(unused_imports, dead_code, non_snake_case, unused_unsafe, unused_variables, unused_mut)]
 use super::*;
 use crate::gc::{Gc, Generation};
 use crate::real_std as rstd;
-use crate::thread::__verif_c13__vm_thread::{fake_global, lock_context, mk_thread};
+use crate::thread::__verif_common__vm_thread::{fake_global, lock_context, mk_thread};
 use crate::value::ValueRepr;
 use rstd::mem::ManuallyDrop;
 
 fn fmt_stub(_: rstd::fmt::Arguments<'_>) -> rstd::string::String {
     rstd::string::String::new()
+}
+
+/// The nested value clone is the `Cloner`'s own business (share-or-copy per pointer; the cell holds
+/// a scalar here).  Behind the cell's `Mutex` the variant is not syntactically known, so the real
+/// `deep_clone` made CBMC explore every arm of `deep_clone_inner` -- strings, records, closures,
+/// every `Userdata` implementation, recursively -- and not even the canary finished in 20 min.
+fn deep_clone_stub<'t, 'gc>(c: &'gc mut Cloner<'t>, value: &Value) -> Result<crate::Variants<'gc>>
+where
+    't: 't,
+{
+    unsafe { Ok(crate::Variants::with_root(value, &*c)) }
 }
 
 fn clone_cell(canary: bool) {
@@ -61,11 +72,12 @@ fn clone_cell(canary: bool) {
     }
 }
 
-//@ tier=thorough cap=1800 mem=20 funcs=Reference::deep_clone,Cloner::deep_clone,Cloner::deep_clone_inner,Gc::alloc bound=cell_holding_any_i64;source_and_destination_sibling_threads
+//@ tier=thorough cap=1800 mem=20 funcs=Reference::deep_clone,Gc::alloc bound=cell_holding_any_i64;source_and_destination_sibling_threads
 #[kani::proof]
 #[kani::unwind(5)]
 #[kani::stub(rstd::fmt::format, fmt_stub)]
 #[kani::stub(crate::gc::Gc::get_type_info, crate::gc::__verif_common__vm_gc::type_info_stub)]
+#[kani::stub(crate::value::Cloner::deep_clone, deep_clone_stub)]
 fn c13_clone_reference_cell() {
     clone_cell(false);
 }
@@ -75,6 +87,7 @@ fn c13_clone_reference_cell() {
 #[kani::unwind(5)]
 #[kani::stub(rstd::fmt::format, fmt_stub)]
 #[kani::stub(crate::gc::Gc::get_type_info, crate::gc::__verif_common__vm_gc::type_info_stub)]
+#[kani::stub(crate::value::Cloner::deep_clone, deep_clone_stub)]
 fn c13_clone_reference_canary() {
     clone_cell(true);
 }
